@@ -1522,6 +1522,89 @@ MUTANTS += [
     {"name": "stress5:map-add-private-method-marks-only-build-only-rules", "expect": "R3.1", "edits": [(P, _S5_ADD_BODY, _S5_ADD_LOOP + _S5_ADD_HELPER.replace("        if not rule.build_only:\n            self._matcher.add(rule)\n", "        if not rule.build_only:\n            self._matcher.add(rule)\n        else:\n            self._remap = True\n"))]},
 ]
 
+# ---- round 6: one local stands for the static successor before the loop AND is the target of the loop over .dynamic
+# (what a name holds is decided at the call that uses it); the loop body in early-`continue` style
+_R6_DYN_FOR = "            for test_part, new_state in state.dynamic:\n                target = part\n"
+_R6_DYN_FOR_SHARED = "            for test_part, follower in state.dynamic:\n                target = part\n"
+_R6_DYN_CALL = "                    rv = _match(new_state, remaining, values + groups)\n"
+_R6_STATIC_GET = (
+    "            follower = state.static.get(part)\n"
+    "            if follower is not None:\n"
+    "                rv = _match(follower, parts[1:], values)\n"
+    "                if rv is not None:\n"
+    "                    return rv\n"
+)
+_R6_STATIC_IFEXP = (
+    "            follower = state.static[part] if part in state.static else None\n"
+    "            if follower is None:\n"
+    "                rv = None\n"
+    "            else:\n"
+    "                rv = _match(follower, parts[1:], values)\n"
+    "            if rv is not None:\n"
+    "                return rv\n"
+)
+_R6_STATIC_WALRUS = (
+    "            if (follower := state.static.get(part)) is not None:\n"
+    "                if (rv := _match(follower, parts[1:], values)) is not None:\n"
+    "                    return rv\n"
+)
+_R6_BODY_CONTINUE = (
+    "                match = re.compile(test_part.content).match(target)\n"
+    "                if not match:\n"
+    "                    continue\n"
+    "                if test_part.suffixed and match.groups()[-1] == \"/\":\n"
+    "                    remaining = [\"\"]\n"
+    "                named = match.groupdict()\n"
+    "                groups = [named[key] for key in sorted(named) if key.startswith(\"__werkzeug_\")]\n"
+    "                rv = _match(follower, remaining, values + groups)\n"
+    "                if rv is None:\n"
+    "                    continue\n"
+    "                return rv\n"
+)
+_R6_SHARED = [(M, _R6_DYN_FOR, _R6_DYN_FOR_SHARED), (M, _R6_DYN_CALL, "                    rv = _match(follower, remaining, values + groups)\n")]
+_R6_SHARED_CONTINUE = [(M, _R6_DYN_FOR, _R6_DYN_FOR_SHARED), (M, _DYN_BODY, _R6_BODY_CONTINUE)]
+# the static attempt written inside the loop body, after the dynamic try of the same iteration (same local again)
+_R6_STATIC_IN_LOOP = (
+    "                follower = state.static.get(part)\n"
+    "                if follower is not None:\n"
+    "                    rv = _match(follower, parts[1:], values)\n"
+    "                    if rv is not None:\n"
+    "                        return rv\n"
+)
+
+TWINS += [
+    {"name": "round6:one-local-for-static-and-dynamic-successor", "edits": [(M, _STATIC_BLOCK, _R6_STATIC_GET), *_R6_SHARED]},
+    {"name": "round6:one-local-for-both-successors-loop-in-continue-style", "edits": [(M, _STATIC_BLOCK, _R6_STATIC_GET), *_R6_SHARED_CONTINUE]},
+    {"name": "round6:shared-local-bound-by-conditional-expression", "edits": [(M, _STATIC_BLOCK, _R6_STATIC_IFEXP), *_R6_SHARED_CONTINUE]},
+    {"name": "round6:shared-local-bound-by-walrus", "edits": [(M, _STATIC_BLOCK, _R6_STATIC_WALRUS), *_R6_SHARED]},
+    {"name": "round6:loop-in-continue-style-names-kept", "edits": [(M, _DYN_BODY, _R6_BODY_CONTINUE.replace("_match(follower,", "_match(new_state,"))]},
+    {"name": "round6:shared-local-rebound-in-the-loop-body", "edits": [(M, _STATIC_BLOCK, _R6_STATIC_GET), (M, _R6_DYN_FOR, "            for entry in state.dynamic:\n                test_part, follower = entry\n                target = part\n"), _R6_SHARED[1]]},
+]
+MUTANTS += [
+    {"name": "round6:shared-local-dynamic-loop-placed-first", "expect": "R3.1", "edits": [(M, _STATIC_BLOCK, ""), *_R6_SHARED_CONTINUE, (M, _FALLBACK_COMMENT, _R6_STATIC_GET + _FALLBACK_COMMENT)]},
+    {"name": "round6:shared-local-static-attempt-inside-the-loop-after-a-dynamic-try", "expect": "R3.1", "edits": [(M, _STATIC_BLOCK, ""), (M, _R6_DYN_FOR, _R6_DYN_FOR_SHARED), (M, _DYN_BODY, _R6_BODY_CONTINUE.replace("                if rv is None:\n                    continue\n                return rv\n", "                if rv is not None:\n                    return rv\n" + _R6_STATIC_IN_LOOP))]},
+    {"name": "round6:shared-local-static-result-kept-until-after-the-loop", "expect": "R3.1", "edits": [(M, _STATIC_BLOCK, "            follower = state.static.get(part)\n            first = _match(follower, parts[1:], values) if follower is not None else None\n"), *_R6_SHARED_CONTINUE, (M, _FALLBACK_COMMENT, "            if first is not None:\n                return first\n" + _FALLBACK_COMMENT)]},
+    {"name": "round6:continue-style-loop-iterates-dynamic-back-to-front", "expect": "R3.1", "edits": [(M, _STATIC_BLOCK, _R6_STATIC_GET), (M, _R6_DYN_FOR, _R6_DYN_FOR_SHARED.replace("state.dynamic:", "state.dynamic[::-1]:")), (M, _DYN_BODY, _R6_BODY_CONTINUE)]},
+]
+
+# the same reuse of one local inside the generator of candidate transitions (third independent round's shape)
+_R6_GEN = next(tw for tw in TWINS if tw["name"] == "indep3-match-transition-candidates-generator")["edits"][0]
+_R6_GEN_STATIC = "                if part in state.static:\n                    yield state.static[part], parts[1:], values\n"
+_R6_GEN_STATIC_SHARED = "                follower = state.static.get(part)\n                if follower is not None:\n                    yield follower, parts[1:], values\n"
+_R6_GEN_LOOP_END = "                    yield new_state, remaining, values + groups\n"
+
+
+def _r6_gen(static_first: bool) -> list:
+    new = _R6_GEN[2].replace("for test_part, new_state in state.dynamic:", "for test_part, follower in state.dynamic:")
+    new = new.replace(_R6_GEN_STATIC, _R6_GEN_STATIC_SHARED if static_first else "")
+    new = new.replace(_R6_GEN_LOOP_END, "                    yield follower, remaining, values + groups\n" + ("" if static_first else _R6_GEN_STATIC_SHARED))
+    assert new.count("follower") == 5, "anchors of the generator shape moved"
+    return [(_R6_GEN[0], _R6_GEN[1], new)]
+
+
+TWINS += [{"name": "round6:generator-one-local-for-static-and-dynamic-candidate", "edits": _r6_gen(True)}]
+MUTANTS += [{"name": "round6:generator-shared-local-static-candidate-yielded-last", "expect": "R3.1", "edits": _r6_gen(False)}]
+
 # Neutral refactorings (round 5, written by a fresh author, tests + differential run identical) on which the check still
 # gives up (exit 2, no false alarm): kept here as text edits for a later round; not run by the self-validation.
 UNDECIDED = [
